@@ -3,6 +3,9 @@ import json, os, re
 SPEC = {
     "lean_modules": ["SemaModel.C17.Props", "SemaModel.C17.Tie", "SemaModel.C17.TieSort", "SemaModel.ClusterCompose.Props"],
     "lean_dirs": ["SemaModel/C17", "SemaModel/ClusterCompose"],
+    # modules of the list outside SemaModel/C17 are the cluster COMPOSITION (C13 + C14 + C15 + C16 + C17): when they no longer build because a proof
+    # obligation of ANOTHER property broke (its own check reports that), this check notes it and goes on with its own modules (verifcore/blame.py)
+    "composition_dirs": ["SemaModel/ClusterCompose"],
     "harness": "c17",
     "harness_args": {"quick": ["-n", 400, "-big", 15, "-curate", 3000, "-fault", 24, "-cluster", 16], "thorough": ["-n", 3000, "-big", 100, "-curate", 50000, "-fault", 160, "-cluster", 150]},
     "timeout": {"quick": 900, "thorough": 3000},
@@ -50,13 +53,94 @@ SPEC = {
 }
 
 
+# ------------------------------------------------------------------------------------------------------------------
+# Whose disagreement is it?  The cluster stream runs the COMPOSED model (C13 routing + C15 placement / quota + C16 keys and
+# directories + C17 update / delete); its `dump` lines show every node's records and shard directories.  Per scenario
+# (from its `newcluster` line) only the FIRST differing line is evidence - what follows is downstream of a state that has
+# already diverged - and it is classified by what differs:
+#   * a `dump` with the same records and the same shard directories overall, only held by other NODES: the owner
+#     computation (rendezvous routing) -> C13
+#   * a `dump` whose record keys / directory names differ as TEXT while the values they carry are the same -> C16
+#   * a `dump` that follows only `create` / `insert` calls since the last agreeing dump and differs in shard lists or in the
+#     distribution of points over shards: placement / quota of the insert -> C15
+# Anything else (a differing response, a dump after update / delete, a first difference that fits no rule) stays here.
+
+def _parse_dump(ans):
+    """`n0 db[k=v,…] sh[dir=pts,…] n1 …` -> {node: (set of db items, set of sh items)} or None"""
+    out, node = {}, None
+    for tok in ans.split(" "):
+        if tok.startswith("db[") and tok.endswith("]") and node is not None:
+            out[node][0].update(x for x in tok[3:-1].split(",") if x)
+        elif tok.startswith("sh[") and tok.endswith("]") and node is not None:
+            out[node][1].update(x for x in tok[3:-1].split(",") if x)
+        elif tok and tok[0] == "n" and tok[1:].isdigit():
+            node = tok
+            out[node] = (set(), set())
+        else:
+            return None
+    return out or None
+
+
+def _classify_dump(impl, model, writes_since):
+    a, b = _parse_dump(impl), _parse_dump(model)
+    if not a or not b or set(a) != set(b):
+        return None
+    union = lambda d, i: sorted(x for n in d for x in d[n][i])
+    if union(a, 0) == union(b, 0) and union(a, 1) == union(b, 1):
+        return ["C13"], "every node database record and every shard directory is the same in implementation and model, only held by other nodes: the owner computation (rendezvous routing) differs"
+    vals = lambda d, i: sorted(x.split("=", 1)[-1] for n in d for x in d[n][i])
+    keys = lambda d, i: sorted(x.split("=", 1)[0] for n in d for x in d[n][i])
+    if vals(a, 0) == vals(b, 0) and vals(a, 1) == vals(b, 1) and (keys(a, 0) != keys(b, 0) or keys(a, 1) != keys(b, 1)):
+        return ["C16"], "the records and shard contents are the same, the record keys / directory names they are stored under differ as text: key or path construction"
+    if writes_since and all(w in ("create", "insert") for w in writes_since) and "insert" in writes_since and keys(a, 0) == keys(b, 0):
+        return ["C15"], "the first difference of the scenario appears right after insert calls, under the same record keys: shard lists / distribution of the points over shards (placement, quota) differ"
+    return None
+
+
+def _classify_cluster(dis, ops, routing_diverged=()):
+    """-> (own, foreign); `dis`: every differing line of the cluster stream; `routing_diverged`: op-line numbers of the
+    newcluster lines of scenarios in which the harness MEASURED that cluster.RendezvousHash names another owner than the
+    smallest real score (go/cmd/c17/compose.go): those scenarios diverge by routing, C13"""
+    start = [i for i, o in enumerate(ops) if o.startswith("newcluster")]
+    def scen(i):
+        s = -1
+        for k in start:
+            if k <= i:
+                s = k
+        return s
+    by = {}
+    for d in dis:
+        by.setdefault(scen(d["line"] - 1), []).append(d)
+    own, foreign = [], []
+    for s, ds in sorted(by.items()):
+        first = ds[0]
+        i = first["line"] - 1
+        who = None
+        if s >= 0 and (s + 1) in routing_diverged:
+            who = (["C13"], "in this scenario the real owner computation (cluster.RendezvousHash through a node's own server list) names another server than the smallest real score, measured by the harness on the routed keys; the composed model routes by the scores")
+        elif s >= 0 and first["op"].split(" ", 1)[0] == "dump":
+            # write calls since the last dump before this one
+            ws, k = [], i - 1
+            while k > s and not ops[k].startswith("dump"):
+                kind = ops[k].split(" ", 1)[0]
+                if kind not in ("score", "get"):
+                    ws.append(kind)
+                k -= 1
+            who = _classify_dump(first["impl"], first["model"], ws)
+        if who:
+            foreign.append(dict(first, owners=who[0], why=who[1] + f" ({len(ds) - 1} later differing line(s) of the same scenario are downstream of this one)", stream="cluster (semadriver C17 cluster)"))
+        else:
+            own += ds
+    return own, foreign
+
+
 def run(ctx):
     """The standard correspondence (C17 model on ops.txt) and the cluster-level correspondence of the COMPOSED model
     of SemaModel/ClusterCompose (`semadriver C17 cluster` on cluster/ops.txt: API calls through every entry node and
     dumps of every node's records and shard directories)."""
     r = ctx["runner"]
     rundir, tier = ctx["rundir"], ctx["tier"]
-    res = {"stats": {}, "disagreements": [], "compared": 0, "broken": []}
+    res = {"stats": {}, "disagreements": [], "compared": 0, "broken": [], "foreign": []}
     if not ctx["hok"]:
         return res
     args = [ctx["hbin"], "-seed", str(ctx["seed"]), "-out", rundir] + [str(a) for a in SPEC["harness_args"][tier]]
@@ -83,10 +167,19 @@ def run(ctx):
         if not ok2:
             res["broken"].append(("driver-run", "semadriver C17 cluster", err2[-2000:]))
         else:
-            dis, n = r.diff_lines(p("cluster", "ops.txt"), p("cluster", "impl.txt"), p("cluster", "model.txt"))
+            dis, n = r.diff_lines(p("cluster", "ops.txt"), p("cluster", "impl.txt"), p("cluster", "model.txt"), limit=1 << 30)
+            cst0 = json.load(open(p("cluster", "stats.json")))
+            dis, foreign = _classify_cluster(dis, open(p("cluster", "ops.txt")).read().splitlines(), set(cst0.get("routing_diverged") or []))
+            if not dis and not foreign:
+                pass
+            # what the cluster harness itself measured to be another property's (vh.Out.Note) - only worth a note when something differs
+            if foreign:
+                for f in cst0.get("foreign") or []:
+                    res["foreign"].append({"owners": f.get("owners"), "stream": f.get("stream"), "oracle": f.get("op"), "what": f.get("why"), "why": f.get("why"), "replay": f.get("replay", "")})
             for d in dis:
                 d["mode"] = "composed cluster model (semadriver C17 cluster); replay the scenario from its newcluster line up to this line"
-            res["disagreements"] += dis
+            res["disagreements"] += dis[:20]
+            res["foreign"] += foreign
             res["compared"] += n
             cst = json.load(open(p("cluster", "stats.json")))
             stats["cluster_op_lines"] = cst.get("evaluations", 0)
